@@ -33,7 +33,7 @@ func blockEqual(a, b bcl.Block) bool {
 		}
 		if af, ok := av.(float64); ok {
 			bf, ok := bv.(float64)
-			if !ok || !(af == bf || (af != af && bf != bf)) {
+			if !ok || !sameFloat(af, bf) {
 				return false
 			}
 			continue
